@@ -293,7 +293,8 @@ func (ctx *Context) makeDetailStr(details []BufferSpan) string {
 		}
 
 		exprText := last.Expr
-		baseExprText := string(detailResult[item.begin:item.end])
+		// 子式末尾被吞掉的空白(如 ")" 之后)不属于式子本身
+		baseExprText := strings.TrimRightFunc(string(detailResult[item.begin:item.end]), unicode.IsSpace)
 		if last.Expr == "" {
 			exprText = baseExprText
 		}
